@@ -4,26 +4,28 @@ func init() {
 	register(propSpec{
 		ID: "C17", Pkg: "props/c17", NeedCLI: true, QuickParallel: 4,
 		Rule: "cases: protein alignments of 2-6 rows x 1-80 columns (10 % with 1-5 columns) derived from a drawn ancestor (whole alphabet or a 2-6 letter pool) with a per-row divergence from 0 to 0.97, then '-', X and '*' sprinkled per site (0-30 %) and per column (gap-rich columns); the seven models x model/empirical frequencies x gamma off/on (alpha in [0.2,5], ends and 1 over-represented) x gap-site removal x weights {nil, positive}; a row and a column permutation. The structure is drawn through rapid, the per-site coin flips come from a splitmix64 stream seeded by a drawn value (rapid's own float/int draws are strongly biased towards small values). " +
-			"Oracle: for each pair with an unambiguous difference and 0 < d < 20, the pair-frequency matrix F built by the harness (selected, comparable, weighted, normalised), pi and the eigen system taken from a models/protein.ProtModel initialised by the harness (empirical frequencies re-computed by the harness in the FastME convention), P(t) = R diag(f(lambda t)) L with f = exp or (alpha/(alpha - lambda t))^alpha, lnL(t) = sum F_ij ln(pi_i P_ij(t)); required lnL(d) >= lnL(t) - 1e-7 for t on a 60-point log grid over [1e-8,100] and t = d(1+-1e-3), d(1+-1e-2). Matrix: symmetric (exactly), zero diagonal, pairs without unambiguous difference at exactly 0, entries in [0,20]. Relations: MLDist on the row-permuted alignment gives the permuted matrix, on the column-permuted alignment (weights permuted alike) the same matrix, within 1e-4, for the pairs whose likelihood is measurably curved around d. Command line: goalign compute distance -m <model> [-r] [--alpha a] [-a] on a FASTA file, output read by an independent reader and judged by the same oracle; exit status 0 required. Three deterministic sub-tests run the minimal reproductions of the findings of props/c17/FINDINGS.md (all repaired: a2d9778, f7984a1, 20826a6) through the same oracle, and regress/c17 holds two generated cases that fail when f7984a1 is reverted. " +
+			"Oracle: for each pair with an unambiguous difference and 0 < d < 20, the pair-frequency matrix F built by the harness (selected, comparable, weighted, normalised), the rate matrix rebuilt by the harness from the exported exchangeabilities x the frequencies in use (model frequencies, or empirical frequencies re-computed by the harness in the FastME convention) and scaled to one expected substitution per unit time, its eigen system computed by the harness (Jacobi rotations on the symmetrised matrix, internal/refmodels; nothing of models/protein.ProtModel is used), P(t) = R diag(f(lambda t)) L with f = exp or (alpha/(alpha - lambda t))^alpha, lnL(t) = sum F_ij ln(pi_i P_ij(t)); required lnL(d) >= lnL(t) - 1e-7 for t on a 60-point log grid over [1e-8,100] and t = d(1+-1e-3), d(1+-1e-2). Matrix: symmetric (exactly), zero diagonal, pairs without unambiguous difference at exactly 0, entries in [0,20]. Relations: MLDist on the row-permuted alignment gives the permuted matrix, on the column-permuted alignment (weights permuted alike) the same matrix, within 1e-4, for the pairs whose likelihood is measurably curved around d. Model re-use: one ProtDistModel initialised once with InitModel(nil,nil), as cmd/computedist.go and cmd/distboot.go do, then MLDist on 2-3 alignments (same dimensions with other content, bootstrap-like column resamples, same length with another number of rows, other length; optional weights): every matrix is judged by the same oracle and must equal within 1e-9 the matrix of a fresh model. Command line: goalign compute distance -m <model> [-p] [-r] [--alpha a] [-a] on a FASTA file or on a sequential Phylip file holding 1-3 alignments, every printed matrix read by an independent reader and judged by the same oracle; exit status 0 required. Three deterministic sub-tests run the minimal reproductions of the findings of props/c17/FINDINGS.md (all repaired: a2d9778, f7984a1, 20826a6) through the same oracle, and regress/c17 holds two generated cases that fail when f7984a1 is reverted. " +
 			"Non-trivial: at least one pair with an unambiguous difference and 1e-6 < d < 20 judged by the likelihood oracle; distinct = distinct JSON form of the case",
 		Assumptions: []string{
 			"empirical frequencies follow the convention written in the comments of aaFrequency (FastME): weighted counts over the selected sites, a character that is not an amino acid counts 1/20 for each, one pseudo-count for every amino acid when some count is below 1/20",
 			"gap-site removal: the flag help says 'positions containing >=1 gaps', the code also removes columns holding X or '*'; a distance that maximises the likelihood under either selection of sites is accepted (ambiguous_accepted counts the alignments where the two differ)",
-			"the eigen system of the protein model is taken from models/protein (judged by C18, not here); the likelihood is re-assembled from it by the harness",
+			"the exchangeabilities and model frequencies are read from the exported *Mats() tables (data shared with the code under test); the rate matrix, its scaling and its eigen system are the harness's own",
+			"model re-use mirrors the commands: model frequencies, InitModel(nil,nil) once, MLDist per alignment; re-using a model initialised with empirical frequencies of one alignment on another alignment is not exercised (no caller does it, the statement does not say which frequencies would apply)",
 			"the allowed range of distances is [1e-8,100] (BL_MIN, BL_MAX); a pair reported at the cap 20 is not judged further; a pair whose likelihood changes by less than 1e-9 between d and d(1+-1e-2) is exempt from the permutation relations (ill_conditioned)",
 			"a pair whose only unambiguous differences lie in removed columns is reported at 1e-8 (lower end of the allowed range); the zero clause of the statement does not apply to it and the likelihood is evaluated at max(d,1e-8)",
 			"a pair reported exactly at the cap 20 is only required to lie in [0,20]: the statement constrains distances below the cap (the class 'capped although the likelihood peaks below 10' is an observation, 0 on the unchanged tree)",
 			"absence of violations is established on the explored alignments and configurations only",
 		},
-		LevelText: "Generated-input search against an independent likelihood evaluation: ~1 500 (quick) to ~37 000 (thorough) alignments x configurations, every reported distance below the cap compared with 64 other candidate distances under a likelihood re-assembled by the harness, plus matrix predicates, row/column permutation relations and ~150-2 500 command executions. Shows absence of violations on what was explored.",
-		LevelNote: "trusts the eigen-decomposition exported by models/protein (covered by C18) and the harness's reading of the empirical-frequency convention; a pair reported at the cap 20 is not constrained by the statement and not judged beyond the range",
+		LevelText: "Generated-input search against an independent likelihood evaluation: ~1 500 (quick) to ~40 000 (thorough) alignments x configurations, every reported distance below the cap compared with 64 other candidate distances under a likelihood re-assembled by the harness, plus matrix predicates, row/column permutation relations, histories of one model object applied to several alignments and ~150-2 500 command executions. Shows absence of violations on what was explored.",
+		LevelNote: "trusts the published exchangeability tables as exported by goalign and the harness's reading of the empirical-frequency convention; a pair reported at the cap 20 is not constrained by the statement and not judged beyond the range",
 		Technique: "property-based testing (rapid): optimality predicate from an independent likelihood + metamorphic relations (row/column permutation) + command-line differential; regression cases of three repaired findings",
 		DesignRef: "DESIGN.md section 5, C17",
 		Runs: []runSpec{
 			// the same test under three seed domains: three processes in parallel in the quick tier
-			{Name: "distances-a", Test: "^TestDistances$", Quick: 500, Thorough: 2500, Shards: 5},
-			{Name: "distances-b", Test: "^TestDistances$", Quick: 500, Thorough: 2500, Shards: 5},
-			{Name: "distances-c", Test: "^TestDistances$", Quick: 500, Thorough: 2500, Shards: 5},
+			{Name: "distances-a", Test: "^TestDistances$", Quick: 400, Thorough: 2500, Shards: 4},
+			{Name: "distances-b", Test: "^TestDistances$", Quick: 400, Thorough: 2500, Shards: 4},
+			{Name: "distances-c", Test: "^TestDistances$", Quick: 400, Thorough: 2500, Shards: 4},
+			{Name: "reuse", Test: "^TestModelReuse$", Quick: 300, Thorough: 2500, Shards: 4},
 			{Name: "regressions", Test: "^TestKnown", Quick: 1, Thorough: 1},
 			{Name: "cli", Test: "^TestCLI$", Quick: 200, Thorough: 500, Shards: 4},
 		},
